@@ -50,11 +50,11 @@ impl Parser for File {
     fn parse(input: &str) -> IResult<&str, File> {
         let mut t: File = Default::default();
 
+        // leading blanks belong to the file, not to the first item: a file that
+        // holds nothing but blanks and comments is an empty document
+        let (input, _) = opt(blank)(input)?;
         let (remain, items) = many_till(
-            map(
-                tuple((opt(blank), Item::parse, opt(blank))),
-                |(_, item, _)| item,
-            ),
+            map(tuple((Item::parse, opt(blank))), |(item, _)| item),
             eof,
         )(input)?;
 
